@@ -720,7 +720,7 @@ FAMILIES = {
     "native": dict(jobs=native_jobs, attr=lambda kind, op, tag, diag: ["C12"]),
     "text": dict(jobs=text_jobs, attr=text_attr, record_timeout=1800),
     # small shards: events on 1000- and 2048-bit operands cost far more than the average, and a shard is one TLC process
-    "wide": dict(jobs=wide_jobs, attr=lambda kind, op, tag, diag: ["C10"], record_timeout=1800, shard=2000),
+    "wide": dict(jobs=wide_jobs, attr=lambda kind, op, tag, diag: ["C03", "C10"] if kind == "WCmp" else ["C10"], record_timeout=1800, shard=2000),
     "fraction": dict(jobs=simple_jobs("h_fraction.cpp", "fraction"), attr=fraction_attr),
     "sqrt": dict(jobs=simple_jobs("h_sqrt.cpp", "sqrt"), attr=lambda kind, op, tag, diag: ["C19"]),
     "bits": dict(jobs=bits_jobs, attr=lambda kind, op, tag, diag: ["C18"]),
@@ -781,9 +781,10 @@ CHECKS = {
                "integers for wrapper reps), result exponents exp(a)-exp(b) and exp(a); the identity (a/b)*b + a%b == a is "
                "evaluated by the library itself and must be true wherever the spec says division is defined.",
                "quotient(a,b) is judged for radix-2 scaled_integer pairs: value = true quotient truncated toward zero at the result exponent, and the result type must hold the widest possible quotient (|a| maximal, |b| = 1 unit); zero divisors and MIN/-1 are excluded as the property states"),
-    "C03": chk(["scaled"], [],
+    "C03": chk(["scaled", "wide"], [],
                SCALED_RULE + "all six comparison results are recorded per pair; non-trivial = different exponents or mixed "
-               "signedness",
+               "signedness; plus the comparison events of the wide family (wide_integer against wide_integer and against "
+               "built-in integers on either side)",
                SCALED_TECH,
                "the six logged results must equal the order of the denoted values (wrapper reps, elastic_integer pairs of "
                "different width/signedness) or, for built-in reps, the built-in comparison of the exponent-aligned reps after "
